@@ -401,7 +401,8 @@ struct Model {
 };
 
 static volatile int *g_step = nullptr;  // shared with the parent: where a dying child was
-static inline void mark(int v) { if (g_step) *g_step = v; }
+static bool g_nomark = false;    // set while looking for further damage after a failure was already found
+static inline void mark(int v) { if (g_step && !g_nomark) *g_step = v; }
 static std::string slurp(const std::string &p) {
   std::ifstream f(p, std::ios::binary);
   std::stringstream ss; ss << f.rdbuf();
@@ -469,6 +470,11 @@ static bsx::Outcome run_history(char init, const std::vector<Op> &ops, const std
   H5::Exception::dontPrint();
   ::remove(file.c_str());
   Model M;
+  // slots on which a write was attempted (and rejected) through the current READ handle: libhdf5 may keep the
+  // rejected data in that handle's cache (H5Awrite converts into the cached attribute before it notices the
+  // missing write intent), so what the SAME handle shows afterwards is not specified by the statement (which
+  // speaks about the file and fresh handles); the fresh handle and the file bytes are still checked.
+  std::set<int> ro_tainted;
   std::unique_ptr<CheckpointFile> h;
   std::string ro_snapshot;
   bool ro_open = false;
@@ -496,6 +502,7 @@ static bsx::Outcome run_history(char init, const std::vector<Op> &ops, const std
           return failwith({std::string("reopen-") + op.level + "-rejected", -1, 0, std::string("reopening the existing file threw: ") + e2.what()});
         }
         M.level = op.level;
+        ro_tainted.clear();
         if (op.level == 'C') M.clear();
       } else if (op.kind == 'W') {
         const Val &v = ALPHA[op.val];
@@ -518,6 +525,7 @@ static bsx::Outcome run_history(char init, const std::vector<Op> &ops, const std
             } catch (const std::exception &) { threw = true; }
             if (!threw) return failwith({"readonly-write-accepted-via-reader-loc", slot, 0, std::string("write of ") + v.label + " through a writer on a READ file's group was not rejected"});
           }
+          ro_tainted.insert(slot);
           continue;  // model unchanged
         }
         bool parent_missing = op.route == 'd' && !M.group[1];
@@ -532,6 +540,7 @@ static bsx::Outcome run_history(char init, const std::vector<Op> &ops, const std
                                                         " was rejected: " + clip(e.what())});
         }
       } else {  // 'R' through the live handle (nested group through openChild)
+        if (ro_tainted.count(op.loc * 2 + op.name)) continue;
         Fail f = check_slot(*h, M, op.loc, op.name, 0, allkinds, true);
         if (f.any()) { f.what = "live handle (" + std::string(1, M.level) + "): " + f.what; return failwith(f); }
       }
@@ -544,28 +553,31 @@ static bsx::Outcome run_history(char init, const std::vector<Op> &ops, const std
     if (!ops.empty() && ops.back().kind != 'O') order.push_back(ops.back().loc * 2 + ops.back().name);
     for (int s = 0; s < 6; s++) if (order.empty() || order[0] != s) order.push_back(s);
     bool grp_checked[3] = {false, false, false};
+    Fail primary;
     for (int slot : order) {
       int loc = slot / 2, name = slot % 2;
+      Fail f;
       if (!M.group[loc]) {
         if (grp_checked[loc]) continue;
         grp_checked[loc] = true;
         mark(1000 + slot * 10);
         bool threw = false;
         try { CheckpointReader r = fresh.getReader(LOCPATH[loc]); } catch (const std::exception &) { threw = true; }
-        if (!threw) {
-          Fail f{"never-created-group-opens", slot, 0, std::string("group ") + LOCPATH[loc] + " was never written but opens"};
-          if (dirty) { ::remove(file.c_str()); return o; }
-          return failwith(f);
-        }
-        continue;
+        if (!threw) f = {"never-created-group-opens", slot, 0, std::string("group ") + LOCPATH[loc] + " was never written but opens"};
+      } else {
+        f = check_slot(fresh, M, loc, name, 0, allkinds, false);
       }
-      Fail f = check_slot(fresh, M, loc, name, 0, allkinds, false);
-      if (f.any()) {
-        if (dirty) { ::remove(file.c_str()); return o; }  // reported by the plain variant of the same history
-        f.what = "fresh READ handle: " + f.what;
-        return failwith(f);
-      }
+      if (!f.any()) continue;
+      if (dirty) { ::remove(file.c_str()); return o; }  // reported by the plain variant of the same history
+      if (primary.any()) { primary.what += ";  ALSO DAMAGED by that op: " + f.what; break; }
+      primary = f;
+      primary.what = "fresh READ handle: " + f.what;
+      // a write that fails at its own slot: look (without moving the crash marker) whether other slots suffered too
+      if (slot == order[0] && !ops.empty() && ops.back().kind == 'W') { g_nomark = true; continue; }
+      break;
     }
+    g_nomark = false;
+    if (primary.any()) return failwith(primary);
     if (dirty && !order.empty()) {
       int slot = order[0];
       Fail f = check_slot(fresh, M, slot / 2, slot % 2, 1, allkinds, false);
@@ -671,21 +683,26 @@ int main(int argc, char **argv) {
   for (char l : {'R', 'M', 'C'}) full.push_back(O(l));
   for (int loc = 0; loc < 3; loc++) for (int nm = 0; nm < 2; nm++) full.push_back(Rd(loc, nm));
   auto labels = [&](std::initializer_list<const char *> ls) { std::vector<int> r; for (auto l : ls) r.push_back(BYLABEL.at(l)); return r; };
-  std::vector<int> Vdeep = thorough ? labels({"i7", "dpi", "sa", "bT", "vd3", "vd3b", "vd1", "m2x3", "m3x2", "mblk", "q2", "q1", "t2", "t1"})
-                                    : labels({"i7", "dpi", "sa", "vd3", "vd1", "m2x3", "m3x2", "q2", "q1", "t2"});
-  std::vector<int> Vdeeper = labels({"i7", "sa", "vd3", "vd1", "m2x3", "q2"});  // subset of Vdeep in both tiers
+  std::vector<int> Vdeep = labels({"i7", "dpi", "sa", "vd3", "vd1", "m2x3", "m3x2", "q2", "q1", "t2"});
+  std::vector<int> Vdeeper = labels({"i7", "sa", "vd3", "vd1", "m2x3", "q2"});  // subset of Vdeep
+  std::vector<int> Vdeepest = labels({"i7", "vd3", "vd1", "q2"});                 // subset of Vdeeper
+  std::vector<Op> deepest;
   for (char rt : {'r', 'c', 'd'}) for (int nm = 0; nm < 2; nm++) for (int v : Vdeep) deep.push_back(W(rt, nm, v));
   for (char l : {'R', 'M', 'C'}) deep.push_back(O(l));
   for (int loc : {0, 2}) for (int nm = 0; nm < 2; nm++) deep.push_back(Rd(loc, nm));
   for (char rt : {'r', 'c'}) for (int nm = 0; nm < 2; nm++) for (int v : Vdeeper) deeper.push_back(W(rt, nm, v));
   for (char l : {'R', 'M', 'C'}) deeper.push_back(O(l));
   deeper.push_back(Rd(0, 0)); deeper.push_back(Rd(2, 1));
-  std::set<std::string> deepset, deeperset;
+  for (char rt : {'r', 'c'}) for (int nm = 0; nm < 2; nm++) for (int v : Vdeepest) deepest.push_back(W(rt, nm, v));
+  for (char l : {'R', 'M', 'C'}) deepest.push_back(O(l));
+  deepest.push_back(Rd(0, 0)); deepest.push_back(Rd(2, 1));
+  std::set<std::string> deepset, deeperset, deepestset;
   for (auto &op : deep) deepset.insert(opstr(op));
   for (auto &op : deeper) deeperset.insert(opstr(op));
+  for (auto &op : deepest) deepestset.insert(opstr(op));
   auto allin = [&](const Cand &c, const std::set<std::string> &set) { for (auto &op : c.ops) if (!set.count(opstr(op))) return false; return true; };
 
-  // quick: d1 full, d2 selected, d3 over `deeper`;  thorough: d1 full, d2 full, d3 over `deep`, d4 over `deeper`
+  // quick: d1 full, d2 selected, d3 over `deeper`;  thorough: d1 full, d2 selected (wider), d3 over `deep`, d4 over `deepest`
   const std::vector<Op> &ops3 = thorough ? deep : deeper;
   const std::set<std::string> &set3 = thorough ? deepset : deeperset;
   R.rule = "explicit-state BFS over op histories W(path,name,value)/Reopen(READ|MODIFY|CREATE)/R(path,name) on a real HDF5 file (own file per history, forked children, ASan/UBSan on the "
@@ -693,9 +710,10 @@ int main(int argc, char **argv) {
            std::to_string(ALPHA.size()) + " typed values (Index/int/unsigned/double/float/bool/string, vector<Index/int/double/string>, MatrixXd 0x0/3x0/0x3/1x4/4x1/1x1/2x3/3x2/3x3/37x53/"
            "non-contiguous block, MatrixXf, VectorXd, RowVectorXd, Vector3d, vector<Vector3d>, CptTable<StaticSite> rows 0/1/2). depth 1: all " + std::to_string(full.size()) +
            " ops (+ every write re-read into a pre-filled target); depth 2: " +
-           (thorough ? "every op after every depth-1 state of the CREATE start, the reduced alphabet after the MODIFY start"
-                     : "every value over every value on the same slot (/:x and /a/b:x), every reopen/read after every depth-1 state, all pairs of the reduced alphabet (" + std::to_string(deep.size()) + " ops)") +
-           "; depth 3: " + std::to_string(ops3.size()) + "-op alphabet" + (thorough ? "; depth 4: " + std::to_string(deeper.size()) + "-op alphabet" : "") +
+           (thorough ? "every value over every value on the same slot (all slots and routes), every reopen/read and every op of the reduced alphabet after every depth-1 state"
+                     : "every value over every value on the same slot (/:x and /a/b:x), every reopen/read after every depth-1 state") +
+           ", all pairs of the reduced alphabet (" + std::to_string(deep.size()) + " ops: values i7,dpi,sa,vd3,vd1,m2x3,m3x2,q2,q1,t2) from both starts; depth 3: " + std::to_string(ops3.size()) +
+           "-op alphabet" + (thorough ? "; depth 4: " + std::to_string(deepest.size()) + "-op alphabet (i7,vd3,vd1,q2 on /:x,y and /a/b:x,y)" : " (i7,sa,vd3,vd1,m2x3,q2 on /:x,y and /a/b:x,y)") +
            ". Oracle: std::map model; after each history a fresh READ handle reads every slot: bit-identical payload+shape, "
            "error for never-written names (every kind at depth<=1, attribute/dataset/group kinds deeper), READ-handle writes rejected and file bytes unchanged. state = handle level + per-slot current "
            "value + set of storage signatures written since truncation; distinct_nontrivial = distinct states reached";
@@ -728,7 +746,7 @@ int main(int argc, char **argv) {
             std::string cas = candstr(c);
             if (!o.ok) {
               ::remove(("h" + std::to_string(depth) + "_" + std::to_string(i) + ".h5").c_str());
-              if (o.key == "fatal") o.what += "  [" + cas + "]";
+              if (o.key == "fatal") { o.what += "  [" + cas + "]"; R.counters["children_killed_by_sanitizer_or_signal"]++; }
               resolve(c.init, c.ops, o, *g_step);
               R.fail(o.key, o.what, cas);
               R.counters["failing_histories"]++;
@@ -753,7 +771,8 @@ int main(int argc, char **argv) {
     std::vector<Cand> c0{{init, {}}};
     evaluate(c0, 0, nullptr, a.shard == 0);  // every shard knows the initial states, shard 0 counts them
     for (auto &op : full) {
-      if (a.mine(idx++)) {
+      // shard by a hash of the op (the alphabet has 4*16 values: plain round robin would give a shard the same values on every path)
+      if (a.mine((long long)(bsx::fnv(opstr(op) + init + std::to_string(idx++)) % 1000003ull))) {
         d1.push_back({init, {op}});
         if (init == 'C' && op.kind == 'W' && op.route != 'd') d1.push_back({init, {op}, true});
       }
@@ -772,10 +791,12 @@ int main(int argc, char **argv) {
     for (auto &op : full) {
       bool op_deep = deepset.count(opstr(op)) > 0;
       bool take;
-      if (thorough) take = c.init == 'C' || op_deep;
-      else {
-        take = first_deep && op_deep;
-        if (c.init == 'C' && op.kind != 'W') take = true;
+      take = first_deep && op_deep;
+      if (c.init == 'C' && op.kind != 'W') take = true;
+      if (thorough) {
+        if (c.init == 'C' && op_deep) take = true;
+        if (c.init == 'C' && first.kind == 'W' && op.kind == 'W' && first.loc == op.loc && first.name == op.name) take = true;
+      } else {
         if (c.init == 'C' && first.kind == 'W' && op.kind == 'W' && first.name == 0 && op.name == 0 && op.route == first.route && (first.route == 'r' || first.route == 'c')) take = true;
       }
       if (take) d2.push_back({c.init, {first, op}});
@@ -784,6 +805,7 @@ int main(int argc, char **argv) {
   // histories inside the reduced alphabets first, so that they represent their states in the next frontier
   std::stable_partition(d2.begin(), d2.end(), [&](const Cand &c) { return allin(c, deepset); });
   std::stable_partition(d2.begin(), d2.end(), [&](const Cand &c) { return allin(c, deeperset); });
+  std::stable_partition(d2.begin(), d2.end(), [&](const Cand &c) { return allin(c, deepestset); });
   evaluate(d2, 2, &f2);
   R.counters["depth2_histories"] = (long long)d2.size();
 
@@ -793,15 +815,15 @@ int main(int argc, char **argv) {
     if (c.init != 'C' || !allin(c, set3)) continue;
     for (auto &op : ops3) { Cand n = c; n.ops.push_back(op); d3.push_back(n); }
   }
-  std::stable_partition(d3.begin(), d3.end(), [&](const Cand &c) { return allin(c, deeperset); });
+  std::stable_partition(d3.begin(), d3.end(), [&](const Cand &c) { return allin(c, deepestset); });
   evaluate(d3, 3, &f3);
   R.counters["depth3_histories"] = (long long)d3.size();
 
   if (thorough) {
     std::vector<Cand> d4;
     for (auto &c : f3) {
-      if (!allin(c, deeperset)) continue;
-      for (auto &op : deeper) { Cand n = c; n.ops.push_back(op); d4.push_back(n); }
+      if (!allin(c, deepestset)) continue;
+      for (auto &op : deepest) { Cand n = c; n.ops.push_back(op); d4.push_back(n); }
     }
     evaluate(d4, 4, nullptr);
     R.counters["depth4_histories"] = (long long)d4.size();
